@@ -328,7 +328,12 @@ func genHousekeeping(p *simkit.Plan, r *simkit.Rand, tier string) {
 		case 0:
 			p.Ops = append(p.Ops, simkit.Op{Actor: "init", Kind: "agent", N: []int64{ages(30 * day), int64(r.Intn(3))}, S: []string{fmt.Sprintf("v0.%d.0", i)}})
 		case 1:
-			p.Ops = append(p.Ops, simkit.Op{Actor: "init", Kind: "cache", N: []int64{ages(7 * day), int64(r.Intn(3))}, S: []string{fmt.Sprintf("sync_cache%d_alpha", i)}})
+			// Besides ordinary caches: what a save interrupted by a crash leaves
+			// behind in the caches directory (the temporary of an atomic write),
+			// and other unusual names.
+			name := simkit.Pick(r, []string{fmt.Sprintf("sync_cache%d_alpha", i), fmt.Sprintf("sync_cache%d_beta", i),
+				fmt.Sprintf(".mutagen-temporary-atomic-write%d", 1000+i), fmt.Sprintf(".hidden%d", i), fmt.Sprintf("cache with space %d", i)})
+			p.Ops = append(p.Ops, simkit.Op{Actor: "init", Kind: "cache", N: []int64{ages(7 * day), int64(r.Intn(3))}, S: []string{name}})
 		case 2:
 			p.Ops = append(p.Ops, simkit.Op{Actor: "init", Kind: "staging", N: []int64{ages(7 * day), int64(r.Intn(3))}, S: []string{fmt.Sprintf("sync_staging%d_beta", i)}})
 		case 3:
